@@ -124,6 +124,12 @@ pub enum Strategy {
     Sticky(u8),
     /// PCT-style: fixed random priorities, `d` priority change points.
     Pct(u8),
+    /// Operations are mostly atomic: a thread runs until its next operation
+    /// boundary; at any other point it is pre-empted with probability 1/q, and
+    /// a thread that resumes after a pre-emption is pre-empted again within
+    /// its next few points with probability 1/3 each (two pre-emptions close
+    /// together inside one operation: check-then-act and ABA windows).
+    Burst(u8),
 }
 impl Strategy {
     pub fn name(&self) -> String {
@@ -131,6 +137,7 @@ impl Strategy {
             Strategy::Random => "random".into(),
             Strategy::Sticky(p) => format!("sticky{p}"),
             Strategy::Pct(d) => format!("pct{d}"),
+            Strategy::Burst(q) => format!("burst{q}"),
         }
     }
     pub fn from_name(s: &str) -> Strategy {
@@ -138,6 +145,8 @@ impl Strategy {
             Strategy::Sticky(p.parse().unwrap_or(12))
         } else if let Some(d) = s.strip_prefix("pct") {
             Strategy::Pct(d.parse().unwrap_or(2))
+        } else if let Some(q) = s.strip_prefix("burst") {
+            Strategy::Burst(q.parse().unwrap_or(48))
         } else {
             Strategy::Random
         }
@@ -189,6 +198,9 @@ struct St {
     strategy: Strategy,
     prio: Vec<u32>,
     change_points: Vec<u64>,
+    boost: Vec<u8>,
+    preempted: Vec<bool>,
+    stmt_points: bool,
     max_steps: u64,
     replay: Option<Vec<u8>>,
     choices: Vec<u8>,
@@ -243,6 +255,9 @@ pub fn sim() -> &'static Sim {
                 strategy: Strategy::Random,
                 prio: vec![],
                 change_points: vec![],
+                boost: vec![],
+                preempted: vec![],
+                stmt_points: false,
                 max_steps: 0,
                 replay: None,
                 choices: vec![],
@@ -271,6 +286,9 @@ pub struct SchedConfig {
     pub keep_trace: bool,
     /// Expected number of scheduling steps (for placing PCT change points).
     pub expected_steps: u64,
+    /// Treat the statement-level points of the instrumented provider sources
+    /// as scheduling points in this run.
+    pub stmt_points: bool,
 }
 
 pub struct SchedResult {
@@ -313,7 +331,7 @@ impl Sim {
 
     /// Picks who runs next among the runnable threads. `me` is the thread
     /// asking (usize::MAX for the harness at run start).
-    fn choose(&self, st: &mut St, me: usize) -> Option<usize> {
+    fn choose(&self, st: &mut St, me: usize, boundary: bool) -> Option<usize> {
         let runnable: Vec<usize> =
             (0..st.status.len()).filter(|&i| st.status[i] == Status::Runnable).collect();
         if runnable.is_empty() {
@@ -347,8 +365,31 @@ impl Sim {
                     }
                     *runnable.iter().max_by_key(|&&t| st.prio[t]).unwrap()
                 }
+                Strategy::Burst(q) => {
+                    let r1 = st.rng.below(q.max(2) as u64);
+                    let r3 = st.rng.below(3);
+                    let k = st.rng.below(runnable.len() as u64) as usize;
+                    if boundary || !runnable.contains(&me) {
+                        runnable[k]
+                    } else {
+                        let boosted = st.boost[me] > 0;
+                        st.boost[me] = st.boost[me].saturating_sub(1);
+                        let preempt = if boosted { r3 == 0 } else { r1 == 0 };
+                        let others: Vec<usize> = runnable.iter().copied().filter(|t| *t != me).collect();
+                        if preempt && !others.is_empty() {
+                            st.preempted[me] = true;
+                            others[k % others.len()]
+                        } else {
+                            me
+                        }
+                    }
+                }
             }
         };
+        if pick < st.preempted.len() && st.preempted[pick] && pick != me {
+            st.preempted[pick] = false;
+            st.boost[pick] = 3;
+        }
         st.choices.push(pick as u8);
         if pick != me && me != usize::MAX {
             st.stats.context_switches += 1;
@@ -385,12 +426,13 @@ impl Sim {
         &'a self,
         mut st: std::sync::MutexGuard<'a, St>,
         me: usize,
+        boundary: bool,
     ) -> std::sync::MutexGuard<'a, St> {
         if st.stats.steps >= st.max_steps {
             self.abort(&mut st, "livelock");
         }
         if st.aborted.is_none() {
-            match self.choose(&mut st, me) {
+            match self.choose(&mut st, me, boundary) {
                 Some(n) => {
                     st.current = n;
                     self.cv.notify_all();
@@ -424,7 +466,7 @@ impl Sim {
             std::panic::panic_any(SimAbort);
         }
         Self::event(&mut st, me, kind, detail);
-        let st = self.reschedule(st, me);
+        let st = self.reschedule(st, me, kind == "op");
         if st.aborted.is_some() {
             drop(st);
             std::panic::panic_any(SimAbort);
@@ -471,6 +513,9 @@ impl Sim {
                 strategy: cfg.strategy,
                 prio,
                 change_points,
+                boost: vec![0; n],
+                preempted: vec![false; n],
+                stmt_points: cfg.stmt_points,
                 max_steps: cfg.max_steps,
                 replay: cfg.replay,
                 choices: vec![],
@@ -506,7 +551,7 @@ impl Sim {
                         }
                         st.status[t] = Status::Done;
                         Self::event(&mut st, t, "done", 0);
-                        let _st = me.reschedule(st, t);
+                        let _st = me.reschedule(st, t, true);
                     })
                     .expect("spawn"),
             );
@@ -514,7 +559,7 @@ impl Sim {
         {
             // hand out the baton for the first time
             let mut st = self.lock_st();
-            let first = self.choose(&mut st, usize::MAX).unwrap();
+            let first = self.choose(&mut st, usize::MAX, true).unwrap();
             st.current = first;
             self.cv.notify_all();
         }
@@ -533,6 +578,11 @@ impl Sim {
             stats: st.stats.clone(),
             trace: std::mem::take(&mut st.trace),
         }
+    }
+
+    fn stmt_points_on(&self) -> bool {
+        let st = self.lock_st();
+        st.active && st.stmt_points
     }
 
     /// True while a wall-clock watchdog should consider the run alive.
@@ -601,7 +651,7 @@ impl Env for Sim {
                 st.status.iter().filter(|s| matches!(s, Status::Blocked(o) if *o == ord)).count();
             st.stats.max_waiters = st.stats.max_waiters.max(waiters as u64);
             Self::event(&mut st, me, "blocked", ord as u64);
-            st = self.reschedule(st, me);
+            st = self.reschedule(st, me, true);
         }
     }
 
@@ -709,7 +759,16 @@ impl Env for Sim {
 
     fn point(&self, name: &'static str) {
         if tid().is_some() {
-            self.yield_point(name, 0);
+            // "<file>:<line>" = statement-level point inserted by the
+            // instrumenter; only some runs use them (swarm)
+            if name.contains(':') {
+                if !self.stmt_points_on() {
+                    return;
+                }
+                self.yield_point("stmt", crate::rng::Fnv::hash_str(name));
+            } else {
+                self.yield_point(name, 0);
+            }
         }
     }
 
